@@ -86,8 +86,6 @@ class _NamedStringIO(io.StringIO):
     name = None
 
 
-CORE_MODULES = ("data_gen_exceptions", "data_generator_runtime_object_model", "parse_recipe_yaml", "data_generator")
-
 STATIC_STAGE_FUNCS = (
     ("parse_recipe", "parse"),
     ("merge_options", "options"),
@@ -96,15 +94,13 @@ STATIC_STAGE_FUNCS = (
 
 
 def _site_of(e):
-    """(site, stage).  site = "<ExceptionType>@<module>.<function>" of the innermost Snowfakery frame -- the key
-    of a known finding.  Two refinements keep the key a function of the *defect* rather than of the input:
-      * RecursionError: the innermost frame is wherever the stack happened to run out; the key is the
-        outermost Snowfakery function that occurs at least three times in the traceback (the cycle);
-      * an exception that passes through `VariableDefinition.evaluate` (a `var` value: the one construct whose
-        evaluation is wrapped by no handler at all) and is raised in plugin / library-facing code (a standard
-        plugin, the fake-data layer, a template function, `evaluate_function`, `look_for_number`) is keyed by that
-        frame, whatever function raised it; an exception raised by the core itself (object model, error
-        reporting, parser: CORE_MODULES) keeps its own site even under a `var`.
+    """(site, stage, family).  site = "<ExceptionType>@<module>.<function>" of the innermost Snowfakery frame -- the
+    key of a known finding.  RecursionError: the innermost frame is wherever the stack happened to run out; the key
+    is the outermost Snowfakery function that occurs at least three times in the traceback (the cycle).
+    family: "*@…VariableDefinition.evaluate" when the exception passed through the evaluation of a `var` value
+    (finding D17r, repaired by a876aa4: that evaluation used to be wrapped by no handler at all, so whatever a
+    formula / plugin raised escaped).  An escape is reported under its own site *and* under the family key, so a
+    regression of D17r shows up with the recorded signature while every distinct site stays visible.
     stage: parse | options | refs (the passes that run before the interpreter starts) | run."""
     tb = e.__traceback__
     inner = None
@@ -133,9 +129,8 @@ def _site_of(e):
             if counts[f] >= 3:
                 inner = f
                 break
-    elif through_var and inner.split(".")[0] not in CORE_MODULES:
-        return "*@data_generator_runtime_object_model.VariableDefinition.evaluate", stage
-    return f"{type(e).__name__}@{inner}", stage
+    family = "*@data_generator_runtime_object_model.VariableDefinition.evaluate" if through_var else None
+    return f"{type(e).__name__}@{inner}", stage, family
 
 
 def run_case(case):
@@ -160,7 +155,7 @@ def run_case(case):
     stream.write_row = write_row
     app = SnowfakeryApplication(None)
     app.echo = lambda *a, **k: None
-    res = {"outcome": None, "site": None, "stage": None, "rows": 0, "error": None, "has_line": False, "errtype": None}
+    res = {"outcome": None, "site": None, "family": None, "stage": None, "rows": 0, "error": None, "has_line": False, "errtype": None}
     tmpdir = None
     src = None
     t0 = time.time()
@@ -190,7 +185,7 @@ def run_case(case):
         except CaseTimeout as e:
             res["outcome"] = "hang"
             res["error"] = f"no result after {CASE_TIMEOUT}s"
-            res["site"], res["stage"] = _site_of(e)
+            res["site"], res["stage"], _ = _site_of(e)
             res["site"] = "hang@" + res["site"].split("@", 1)[1]
             del e
         except RowCapExceeded:
@@ -201,7 +196,7 @@ def run_case(case):
             res["outcome"] = common.outcome_of_exception(e)
             res["errtype"] = type(e).__name__
             res["error"] = f"{type(e).__name__}: {str(e)[:300]}"
-            res["site"], res["stage"] = _site_of(e)
+            res["site"], res["stage"], res["family"] = _site_of(e)
             if isinstance(e, exc.DataGenError):
                 res["has_line"] = bool(e.line_num)
                 res["line"] = e.line_num
@@ -293,15 +288,15 @@ GENERATED_FILES = {
         "- include_file: inc.yml\n- object: A\n  include: im\n  fields:\n    x: ${{iv}}\n",
         {"inc.yml": "- macro: im\n  fields:\n    q: 1\n- var: iv\n  value: 3\n- object: I\n"},
     ),
-    # files that declare different versions: each file's declarations are only compared with each other,
-    # the including file's version wins
-    "gen/include-version-differs": (
+    # versions across files (fix 6931335): a version declared in an included file applies to the recipe; the
+    # files must agree
+    "gen/include-version-same": (
         "- snowfakery_version: 3\n- include_file: inc.yml\n- object: A\n  fields:\n    x: ${{1 + 1}}\n",
-        {"inc.yml": "- snowfakery_version: 2\n- object: I\n  fields:\n    y: ${{2 + 2}}\n"},
+        {"inc.yml": "- snowfakery_version: 3\n- object: I\n  fields:\n    y: ${{2 + 2}}\n"},
     ),
     "gen/include-version-inner-only": (
         "- include_file: inc.yml\n- object: A\n",
-        {"inc.yml": "- snowfakery_version: 3\n- snowfakery_version: 3\n- include_file: inc2.yml\n- object: I\n", "inc2.yml": "- snowfakery_version: 2\n- object: J\n"},
+        {"inc.yml": "- snowfakery_version: 3\n- snowfakery_version: 3\n- include_file: inc2.yml\n- object: I\n", "inc2.yml": "- snowfakery_version: 3\n- object: J\n"},
     ),
     "gen/include2": (
         "- include_file: inc.yml\n- object: A\n",
